@@ -147,6 +147,22 @@ func driverRunX(c *core.Ctx, id string, work string, idx int, managed bool, r *r
 			}
 			step = "flush"
 		case x < 66:
+			if !gc && r.Intn(3) == 0 {
+				// the flush happens at the very moment a reader of the invariance check pins the
+				// memtables: between what that reader looked at before and what it looks at next the
+				// data moves from the memtable list to a level-0 table
+				n := w.FlushAtPin(func() {
+					st := w.CheckInvariance("flush-at-pin")
+					c.Count("invariance.reads_checked", st.Gets+st.IterItems)
+				})
+				w.Flush() // nothing left to flush; moves the key window like every flush
+				if n == 0 {
+					continue
+				}
+				c.Count("step.flush-at-pin", 1)
+				step = "flush"
+				break
+			}
 			if !w.Flush() {
 				continue
 			}
